@@ -1,16 +1,15 @@
 (* Hand-written glue (trusted): parse one S-expression of integers per line
    into Model.sx, call the extracted Model.dispatch, print the reply. *)
-open Model
 
 let rec pos_of_int n =
-  if n = 1 then XH
-  else if n land 1 = 0 then XO (pos_of_int (n lsr 1))
-  else XI (pos_of_int (n lsr 1))
-let z_of_int n = if n = 0 then Z0 else if n > 0 then Zpos (pos_of_int n) else Zneg (pos_of_int (-n))
-let rec int_of_pos = function XH -> 1 | XO p -> 2 * int_of_pos p | XI p -> 2 * int_of_pos p + 1
-let int_of_z = function Z0 -> 0 | Zpos p -> int_of_pos p | Zneg p -> - (int_of_pos p)
+  if n = 1 then Model.XH
+  else if n land 1 = 0 then Model.XO (pos_of_int (n lsr 1))
+  else Model.XI (pos_of_int (n lsr 1))
+let z_of_int n = if n = 0 then Model.Z0 else if n > 0 then Model.Zpos (pos_of_int n) else Model.Zneg (pos_of_int (-n))
+let rec int_of_pos = function Model.XH -> 1 | Model.XO p -> 2 * int_of_pos p | Model.XI p -> 2 * int_of_pos p + 1
+let int_of_z = function Model.Z0 -> 0 | Model.Zpos p -> int_of_pos p | Model.Zneg p -> - (int_of_pos p)
 
-let parse (s : string) : sx =
+let parse (s : string) : Model.sx =
   let n = String.length s in
   let i = ref 0 in
   let rec skip () = if !i < n && (s.[!i] = ' ' || s.[!i] = '\n' || s.[!i] = '\r') then (incr i; skip ()) in
@@ -25,19 +24,19 @@ let parse (s : string) : sx =
         if !i >= n then failwith "unclosed"
         else if s.[!i] = ')' then incr i
         else (acc := value () :: !acc; loop ()) in
-      loop (); SxL (List.rev !acc)
+      loop (); Model.SxL (List.rev !acc)
     end else begin
       let j = !i in
       if s.[!i] = '-' then incr i;
       while !i < n && s.[!i] >= '0' && s.[!i] <= '9' do incr i done;
       if !i = j then failwith ("bad char at " ^ string_of_int j);
-      SxZ (z_of_int (int_of_string (String.sub s j (!i - j))))
+      Model.SxZ (z_of_int (int_of_string (String.sub s j (!i - j))))
     end in
   value ()
 
 let rec print buf = function
-  | SxZ z -> Buffer.add_string buf (string_of_int (int_of_z z))
-  | SxL l ->
+  | Model.SxZ z -> Buffer.add_string buf (string_of_int (int_of_z z))
+  | Model.SxL l ->
     Buffer.add_char buf '(';
     List.iteri (fun k x -> if k > 0 then Buffer.add_char buf ' '; print buf x) l;
     Buffer.add_char buf ')'
@@ -47,7 +46,7 @@ let () =
     while true do
       let line = input_line stdin in
       let buf = Buffer.create 256 in
-      (try print buf (dispatch (parse line))
+      (try print buf (Model.dispatch (parse line))
        with Failure m -> Buffer.add_string buf ("(-2) ; " ^ m)
           | Stack_overflow -> Buffer.add_string buf "(-3)");
       print_string (Buffer.contents buf); print_char '\n'; flush stdout
